@@ -115,7 +115,7 @@ fn library_engine(rep: &Report, seed: u64, tier: Tier) {
     let out = par_map(jobs.len(), crate::util::ncpu(), |j| {
         let (i, r2) = jobs[j];
         let mut rng = Rng::new(seed).fork(0x0700_0000 + j as u64);
-        let n = rng.urange(16, 200);
+        let n = if r2 && i % 4 == 3 { rng.urange(700, 1200) } else { rng.urange(16, 200) };
         let nchunks = rng.urange(max_desc - 3, max_desc);
         let source = small_source(&mut rng, n, nchunks);
         let comp = *rng.pick(&[Comp::None, Comp::Brotli(4), Comp::Zstd(3)]);
@@ -126,6 +126,21 @@ fn library_engine(rep: &Report, seed: u64, tier: Tier) {
             spec.max_pad = *rng.pick(&[0usize, 0, 1, 9]);
             spec.slack = *rng.pick(&[0usize, 1, 4096]);
             spec.layout_seed = rng.next_u64();
+            if i % 4 == 3 {
+                // Coincidence family: chunk data starts at an absolute offset equal to the
+                // (uncompressed, fixed) chunk size, stored order not the descriptor order —
+                // "adjacent" must be decided on offset + size, not on size alone.
+                spec.comp = (0, 0);
+                spec.max_pad = 0;
+                spec.slack = 0;
+                spec.order = if i % 8 == 3 { StoredOrder::Reversed } else { StoredOrder::Shuffled };
+                if let Ok(e0) = enc::encode_archive(&source, &spec) {
+                    // larger chunks so that the header fits in front
+                    if n > e0.header_len {
+                        spec.slack = n - e0.header_len;
+                    }
+                }
+            }
             label = format!("r2[{:?},pad<={},slack={}]#{}", spec.order, spec.max_pad, spec.slack, i);
             match enc::encode_archive(&source, &spec) {
                 Ok(e) => e.bytes,
